@@ -157,6 +157,9 @@ def run(tier, rep):
         for m in range(1, 5):
             mm = n // 2 + m
             for d in sorted({n, 2 * mm - 1, 2 * mm}):
+                if d == n and (n + m) % 3 == 0:
+                    zero = dict(n=n, m=m, coefs=[[0, 1]], dcoefs=[[0, 1]])            # identically zero samples: derivative 0, not nan
+                    check_float_case(fb, zero, rnd, rep, stats, 2 * mm + 3)
                 shapes = [[Fraction(1) if k % 2 == 0 else Fraction(-2) for k in range(d + 1)],
                           [Fraction(1, 2) if k == d else Fraction(3) if k == 0 else Fraction(-1) if k == 1 else Fraction(0) for k in range(d + 1)]]
                 cs = shapes[(n + m + d) % 2] if tier == 'quick' else None
